@@ -45,6 +45,7 @@ func c08Install(w *World, cap *c08Capture, rule string) {
 			return
 		}
 		cap.count[r.Slot]++
+		w.Logf("emit slot=%d power=%d to=%s", r.Slot, r.Power, d.To)
 		if f, seen := cap.first[r.Slot]; seen {
 			if string(f) != string(d.Data) {
 				r0, _ := DecodeReport(f)
@@ -91,6 +92,9 @@ func runC08(m *Sim) {
 	lost := map[uint32]bool{}
 	w.UDPPolicy = func(d *Datagram) UDPAction {
 		a := UDPAction(m.C.Weighted("udp", 4, dropW, dupW, delayW))
+		if r, ok := DecodeReport(d.Data); ok {
+			w.Logf("udp slot=%d action=%d now=%d", r.Slot, a, Slot())
+		}
 		if a == UDPDrop {
 			if r, ok := DecodeReport(d.Data); ok {
 				lost[r.Slot] = true
@@ -180,8 +184,12 @@ func runC08(m *Sim) {
 		}
 	}
 	w.PumpUDP()
-	// Let a sync round that is still in flight finish.
-	w.Advance(1500 * time.Millisecond)
+	// The final round must be the only one: the client's own loop is held at
+	// its next tick (a stalled thread - it launches no further rounds) and
+	// rounds that are still in flight get the time to finish.
+	w.S.Hold(cl.Name + ":send.wake")
+	w.S.Hold(cl.Name + ":send.tick")
+	w.Advance(3 * time.Second)
 	w.PumpUDP()
 	for _, n := range servers {
 		c01SyncRotations(w, n)
@@ -190,6 +198,11 @@ func runC08(m *Sim) {
 	var ok bool
 	var rerr error
 	latest := slot
+	var dialled []string
+	w.DialPolicy = func(address string) DialAction {
+		dialled = append(dialled, address)
+		return DialAction{}
+	}
 	t := w.Do("sync-round", func() { ok, rerr = cl.C.VerifSyncRound(latest) })
 	if t.Panic != nil {
 		m.Fail("C08.panic", "sync-round", "sync round panicked: %v\n%s", t.Panic, firstRepoFrames(t.Stack))
@@ -198,16 +211,15 @@ func runC08(m *Sim) {
 		m.Fail("C08.cover", "round", "with every server reachable and no faults a sync round still fails (ok=%v err=%v)", ok, rerr)
 	}
 	w.PumpUDP()
-	stt := cl.C.VerifState()
 	var contacted *ServerNode
-	for _, n := range servers {
-		if n.Key.Pub == stt.PrimaryServer {
-			contacted = n
-		}
+	if len(dialled) > 0 {
+		contacted = w.nodeAt(dialled[len(dialled)-1])
 	}
 	if contacted == nil {
-		m.Fail("C08.cover", "round", "the client's primary server after a successful round is none of its servers")
+		m.Fail("C08.cover", "round", "a sync round succeeded without dialling one of the device's servers (%v)", dialled)
 	}
+	w.S.Unhold(cl.Name + ":send.wake")
+	w.S.Unhold(cl.Name + ":send.tick")
 	snap := contacted.Snap()
 	now := Slot()
 	have := map[uint32]bool{}
